@@ -186,11 +186,11 @@ class _WorkflowService:
             # If the graceful cancel did not finish in time the run was killed
             # without publishing a terminal event: record the outcome here, or
             # the handler would stay "running" with nothing left to update it.
-            current = await self._store.query(HandlerQuery(handler_id_in=[handler_id]))
-            if current and not is_terminal_status(current[0].status):
-                await self._runtime._handle_status_update(
-                    run_id=persisted.run_id, status="cancelled"
+            await self._runtime._retry_store_write(
+                lambda: self._store.update_handler_status(
+                    persisted.run_id, status="cancelled", unless_terminal=True
                 )
+            )
 
         if purge:
             n_deleted = await self._store.delete(
